@@ -20,9 +20,9 @@ CHECKS = {
     note="integer grid coordinates (orientation exact in binary64); bounded n; start vertex convention documented",
     ref="5/C18"),
  "C01": dict(
-    technique="TLC model checking of the Rdp and Fixed machines (termination, linear step bounds, well-formedness, every oracle; negative instances for the end-point split / 2-point seed) + TLC trace validation of recorded simplifier calls with sys.monitoring loop back-edge counts",
+    technique="TLC model checking of the Rdp and Fixed machines (termination, linear step bounds, well-formedness, every oracle; negative instances for the end-point split / 2-point seed) + TLC trace validation of recorded simplifier calls with sys.monitoring loop back-edge counts; TLC refinement check of Rdp.tla against RdpProof.tla, whose step bound is proved for every n with TLAPS (supplementary)",
     text="Rdp.tla / Fixed.tla mirror rdp.rdp and the priority-stack family loop by loop with lazily chosen memoised oracles; TLC proves termination (<>done under WF), steps <= 2n-3 / n-2, and the structural clauses for every oracle up to n=7 (Rdp) / n=5..6 (Fixed); each recorded public call (outcome incl. budget/watchdog, back-edge count, reduced, removed) is judged by Trace_Simplify against WellFormedClause and 2x the proved bound. ~24k calls per quick run over the full configuration product on adversarial curves.",
-    note="bounded n for M; T samples real-valued curves; step counts are loop back-edges observed with sys.monitoring (no source hook); hard budget 400n+4000 back-edges / 20 s watchdog",
+    note="bounded n for M; T samples real-valued curves; step counts are loop back-edges observed with sys.monitoring (no source hook); hang detection: per-loop limit 8n+64 on the refinement loops, quadratic total back-edge budget, CPU-time watchdog",
     ref="5/C01"),
  "C04": dict(
     technique="TLC model checking that the Rdp machine's output is explainable by its oracle + TLC trace validation of rdp.rdp outputs with the recursive ExplainClause operator over class/far tables from the library's primitives (harvested exact-tie thresholds)",
@@ -45,7 +45,7 @@ CHECKS = {
     note="real arithmetic of the definition is evaluated by harness/costdef.py (trusted, exact fractions, eps exact); 0/eps ill-conditioned points classed ambiguous; dict key layout mismatches are DRIFT notes, not violations",
     ref="5/C15"),
  "C02": dict(
-    technique="TLC model checking of the multi_knee recursion machine against the recursive decomposition MKSet for every detector/gate oracle (negative instance: detector may return the last index) + TLC-generated recursion trees replayed through the public wrapper with synthetic detectors + TLC trace validation of the 5 bundled detectors with K/C tables",
+    technique="TLC model checking of the multi_knee recursion machine against the recursive decomposition MKSet for every detector/gate oracle (negative instance: detector may return the last index) + TLC-generated recursion trees replayed through the public wrapper with synthetic detectors + TLC trace validation of the 5 bundled detectors with K/C tables; TLC refinement check of MultiKnee.tla against MultiKneeProof.tla, whose pop bound is proved for every n with TLAPS (supplementary)",
     text="MultiKnee.tla mirrors the stack loop of multi_knee.multi_knee; TLC proves termination, pop bound, ordering, range, interiority and result = MKSet(0,n) for every oracle up to n=9, and emits every recursion tree (n<=7/8) which is replayed through multi_knee.multi_knee with a synthetic detector answering from the tree's table (answers 0, len-2, None included). For curvature, DFDT, Menger, L-method and Kneedle the recorded multi_knee result is judged by Trace_MultiKnee against MKSet over tables K[l][r]=<detector>.knee(points[l:r]) and the bit-exact gate table.",
     note="n<=16 for real detectors (all slices tabulated); gate relative to lf.smape_points; uts dependency trusted",
     ref="5/C02"),
